@@ -255,16 +255,10 @@ def gen_sorted(tier, seed):
             yield [tab, cols + ["id"], rev or None]
 
 
-def contract_sorted(case):
-    tab, cols, rev = case
+def check_sorted(tab, cols, rev):
+    """(symptom, pattern-independent message) of Table.sorted against the list sort; symptom None when they agree"""
     header, rows = model(tab)
-    if not rows:
-        return ("skip",)
-    try:
-        ecols, erev, exp = spec_sorted(header, rows, cols, rev)
-    except TypeError:
-        return ("skip",)            # the key values are not mutually ordered: a list sort raises as well
-    pat = sort_pattern(header, rows, ecols, erev)
+    ecols, erev, exp = spec_sorted(header, rows, cols, rev)
     t = build(tab)
     kw = {}
     if cols is not None:
@@ -274,25 +268,52 @@ def contract_sorted(case):
     try:
         got = t.sorted(**kw)
     except Exception as e:
-        return ("fail", f"sorted/raises-{type(e).__name__}/{pat}", f"{short(case)}: {type(e).__name__}: {e}")
-    r = compare("sorted", pat, (header, exp), got, case, order_matters=False)
+        return f"raises-{type(e).__name__}", f"{type(e).__name__}: {e}"
+    r = compare("", "", (header, exp), got, "", order_matters=False)
     if r:
-        return r
+        return r[1].strip("/"), r[2][4:]
     _, gr = view(got)
     if not rows_eq(gr, exp):
         idx = [header.index(c) for c in ecols]
         gk = [tuple(cell_id(r_[j]) for j in idx) for r_ in gr]
         ek = [tuple(cell_id(r_[j]) for j in idx) for r_ in exp]
         if gk != ek:
-            return ("fail", f"sorted/order/{pat}", f"{short(case)}: sorted gives {short(gr)}, list sort gives {short(exp)}")
-        size = "more-than-16-rows" if len(rows) > 16 else "up-to-16-rows"
-        return ("fail", f"sorted/ties-reordered/{size}",
-                f"{short(case, 700)}: rows with equal keys change their relative order: {short(gr, 500)}; a (stable) "
-                f"list sort gives {short(exp, 500)}")
-    r = unchanged("sorted", pat, [tab], [t], case)
+            return "order", f"sorted gives {short(gr)}, list sort gives {short(exp)}"
+        return "ties-reordered", (f"rows with equal keys change their relative order: {short(gr, 500)}; a (stable) list "
+                                  f"sort gives {short(exp, 500)}")
+    r = unchanged("", "", [tab], [t], "")
     if r:
-        return r
-    return ("ok", len(rows) >= 2)
+        return r[1].strip("/"), r[2][4:]
+    return None, ""
+
+
+def contract_sorted(case):
+    tab, cols, rev = case
+    header, rows = model(tab)
+    if not rows:
+        return ("skip",)
+    try:
+        ecols, erev, _ = spec_sorted(header, rows, cols, rev)
+    except TypeError:
+        return ("skip",)            # the key values are not mutually ordered: a list sort raises as well
+    symptom, msg = check_sorted(tab, cols, rev)
+    if symptom is None:
+        return ("ok", len(rows) >= 2)
+    if symptom == "ties-reordered":
+        pat = "more-than-16-rows" if len(rows) > 16 else "up-to-16-rows"
+    else:
+        # witness pattern: the first reverse-sorted column that shows the same symptom when it is the only key
+        pat = None
+        for c in erev:
+            try:
+                if check_sorted(tab, [c], [c])[0] == symptom:
+                    pat = sort_pattern(header, rows, [c], [c])
+                    break
+            except TypeError:
+                pass
+        if pat is None:
+            pat = ("only-with-several-keys:" if erev else "") + sort_pattern(header, rows, ecols, erev)
+    return ("fail", f"sorted/{symptom}/{pat}", f"{short(case, 700)}: {msg}")
 
 
 # ===================================================================================== 2. filtered / count / count_unique / distinct
@@ -545,17 +566,32 @@ def contract_joins(case):
         else:
             raise ValueError(form)
         exp = spec_cross(L, R, prefix) if cross else spec_inner(L, R, ["k"], [kname], prefix)
-    pat = empt(Lt, Rt)
     argpat = form[form.index("("):]
+    if two or not cross:
+        site = f"{method}{argpat}"
+    else:
+        site = method       # for cross joins the call form only matters to the header
     try:
         got = call()
+        r = compare(site, "", exp, got, case) or unchanged(site, "", [Lt, Rt], [tl, tr], case)
     except Exception as e:
-        return ("fail", f"{method}/raises-{type(e).__name__}/{argpat}/{pat}", f"{short(case)}: {type(e).__name__}: {e}")
-    r = compare(method, f"{argpat}/{pat}", exp, got, case)
-    if r:
-        return r
-    r = unchanged(method, pat, [Lt, Rt], [tl, tr], case)
-    return r or ("ok", len(exp[1]) > 0)
+        r = ("fail", f"{site}/raises-{type(e).__name__}/", f"{short(case)}: {type(e).__name__}: {e}")
+    if not r:
+        return ("ok", len(exp[1]) > 0)
+    symptom = r[1][len(site) + 1:].strip("/")
+    # witness pattern
+    pat = "rows"
+    if form == "inner_join(index)" and any(row[0] is None for row in Lt["r"] + Rt["r"]):
+        pat = "index-column-has-missing-value"
+    elif empt(Lt, Rt) != "rows":
+        # does the same call form show the same symptom on one-row tables? then emptiness is not the pattern
+        ref = contract_joins([dict(Lt, r=[Lt["r"][0] if Lt["r"] else [0, 0, "l0"][-len(Lt["h"]):]]),
+                              dict(Rt, r=[Rt["r"][0] if Rt["r"] else [0, 0, "r0"][-len(Rt["h"]):]]), form])
+        if not (ref[0] == "fail" and ref[1].startswith(f"{site}/{symptom}/")):
+            pat = "an-input-has-0-rows"
+    if symptom == "header" and "col_prefix" in form:
+        pat += "+col_prefix-given"
+    return ("fail", f"{site}/{symptom}/{pat}", r[2])
 
 
 # ===================================================================================== 4. appended / transposed / get_columns / with_new_column
@@ -563,7 +599,7 @@ APP_ROWS = {"int,str": [[0, "x"], [1, ""]], "float,str": [[0.5, "y"], [2.0, "x"]
             "mixed": [[None, 1], ["q", True]], "bool,int": [[True, 1], [False, 0]]}
 TR_H = {"str": ["r1", "r2", "r3", "r4"], "int": [1, 2, 3, 4], "float": [0.5, 1.5, 2.0, -1.0], "bool": [True, False]}
 TR_CELLS = [1, "x", None]
-GC_ROWS = [[0, "x", None], [1, "", 1.5], [2, "x", True]]
+GC_ROWS = [[0, "x", None], [1, "", 1.5], [2, "x", True], [None, "y", 2]]
 GC_COLS = [list(p) for k in (1, 2, 3) for p in itertools.permutations(["a", "b", "c"], k)]
 
 
@@ -719,12 +755,13 @@ def contract_reshape(case):
         index = tab.get("index")
         if index and with_index:
             names = [index] + [c for c in names if c != index]
-        site = "get_columns/" + ("index+with_index" if index and with_index else "index+without" if index else
-                                 "col=str" if isinstance(cols, str) else "col=list")
+        site = "get_columns" + ("/index+with_index" if index and with_index else "/index+without" if index else "")
         if index and not with_index and index in names:
             names = [index] + [c for c in names if c != index]      # an index column is always shown first
         exp = names, [tuple(r[header.index(c)] for c in names) for r in rows]
         call = (lambda: t.get_columns(cols)) if with_index else (lambda: t.get_columns(cols, with_index=False))
+        if index and any(r[header.index(index)] is None for r in rows):
+            pat = "index-column-has-missing-value"
         nontrivial = len(rows) >= 1
     elif op == "with_new_column":
         (tab,) = tabs
@@ -735,7 +772,7 @@ def contract_reshape(case):
             new = [fn(dict(zip(header, r))) for r in rows]
         except TypeError:
             return ("skip",)
-        site = f"with_new_column/{arg.split(':')[0]}"
+        site = f"with_new_column/{arg.split('/')[0]}"
         exp = header + ["z"], [tuple(r) + (v,) for r, v in zip(rows, new)]
         call = lambda: t.with_new_column("z", cb, columns=cols)
         kinds = {("str" if isinstance(v, str) else "other") for v in new}
@@ -819,7 +856,6 @@ IO = {
     "pickle": ("pickle", {}, {}, None, "pickle"),
     "to_csv-text": ("csv", "to_csv", {}, ",", "to_string"),
     "to_tsv-text": ("tsv", "to_tsv", {}, "\t", "to_string"),
-    "to_string(sep=;)": ("txt", "to_string;", {"sep": ";"}, ";", "to_string"),
 }
 LOADS = {"default": {}, "static_column_types": {"static_column_types": True}}
 
@@ -834,6 +870,15 @@ RT_COLS = {
 RT_HEADERS = [["k", "v", "n"], ["k,1", 'v"2', "n 3"], ["a\tb", "c;d", "e|f"]]
 
 
+def loads_for(lab):
+    fam = IO[lab][4]
+    if fam in ("json", "pickle"):
+        return ["default"]
+    if fam == "to_string":
+        return ["static_column_types"]      # the text writers are paired with the reader that does not evaluate cells
+    return list(LOADS)
+
+
 def gen_roundtrip(tier, seed):
     thorough = tier == "thorough"
     labels = list(IO)
@@ -844,24 +889,16 @@ def gen_roundtrip(tier, seed):
                 continue
             tab = {"h": ["k", "v", "n"], "r": [[c1, "z", 1], [c2, "y", 2]]}
             for lab in labels:
-                for load in LOADS:
-                    if IO[lab][4] in ("json", "pickle") and load != "default":
-                        continue
-                    if IO[lab][4] == "to_string" and load == "default":
-                        continue        # the text writers are paired with the non-evaluating reader
+                for load in loads_for(lab):
                     yield [lab, load, tab]
     # (b) one-cell tables (the minimal witnesses), and 0-row tables
     for c in RT_CELLS:
         for lab in labels:
-            for load in LOADS:
-                if IO[lab][4] in ("json", "pickle") and load != "default":
-                    continue
+            for load in loads_for(lab):
                 yield [lab, load, {"h": ["k"], "r": [[c]]}]
     for h in RT_HEADERS + [["k"]]:
         for lab in labels:
-            for load in LOADS:
-                if IO[lab][4] in ("json", "pickle") and load != "default":
-                    continue
+            for load in loads_for(lab):
                 yield [lab, load, {"h": h, "r": []}]
     # (c) typed columns: every choice of <=3 columns x 1..4 rows
     names = list(RT_COLS)
@@ -897,7 +934,7 @@ def gen_roundtrip(tier, seed):
         tab = {"h": [f"c{i}" for i in range(ncol)], "r": [[cv[i] for cv in colvals] for i in range(n)]}
         lab = rnd.choice(labels)
         fam = IO[lab][4]
-        load = "default" if fam in ("json", "pickle") else "static_column_types" if fam == "to_string" else rnd.choice(list(LOADS))
+        load = rnd.choice(loads_for(lab))
         yield [lab, load, tab]
 
 
@@ -912,8 +949,6 @@ def _roundtrip(lab, load, t):
                 text = t.to_csv()
             elif wkw == "to_tsv":
                 text = t.to_tsv()
-            elif wkw == "to_string;":
-                text = t.to_string(sep=";")
             else:
                 text = None
                 t.write(p, **wkw)
@@ -960,7 +995,7 @@ def contract_roundtrip(case):
     suffix, wkw, lkw, sep, fam = IO[lab]
     t = build(tab)
     eh, er = view(t)
-    site = f"roundtrip/{lab if fam in ('delimited', 'to_string') else fam}/load={load}"
+    site = "roundtrip/" + {"delimited": "write-delimited", "to_string": "to_csv-or-to_tsv-text"}.get(fam, "write-" + fam) + f"/load={load}"
     if fam == "to_string":
         # the text writers format floats with the table's `digits` (documented): keep them out of the cell-text claim
         if any(isinstance(v, float) for r in er for v in r):
@@ -1042,8 +1077,8 @@ BOUNDED = {
         "functions": ["Table.write", "cogent3.load_table", "cogent3.parse.table.load_delimited",
                       "cogent3.util.table.cast_str_to_array", "Table.to_csv", "Table.to_tsv", "Table.to_string",
                       "cogent3.format.table.separator_format", "Table.to_json", "Table.__getstate__/__setstate__"],
-        "bound": "13 write/read pairs (tsv, csv, .gz, compress=True, sep ; and |, format=csv, json, pickle, and the text "
-                 "of to_csv/to_tsv/to_string(sep)) x 2 readers (default, static_column_types); tables: all pairs of "
+        "bound": "12 write/read pairs (tsv, csv, .gz, compress=True, sep ; and |, format=csv, json, pickle, and the text "
+                 "of to_csv/to_tsv) x 2 readers for delimited files (default, static_column_types); tables: all pairs of "
                  "23 text cells (delimiters, quotes, empty, padded, number-like, names) in a 2x3 table, every 1x1 "
                  "table, 0-row tables, every choice of <=3 of 12 typed columns x 1..4 rows x 3 headers; seeded "
                  "sample up to 8 rows x 4 columns",
